@@ -305,9 +305,13 @@ def merge_evaluated(db, rule):
         return
     FIELDS = ('definition', 'convention', 'term', 'text')
 
-    def scenario(dest_aliases, src):
-        """src: list of (alias, [mentions]) ; returns (bad message or None)"""
+    def scenario(dest, src):
+        """dest: aliases of the receiving schema, or (alias, [mentions of its definition]) pairs; src: list of (alias, [mentions]); returns (bad message or None)"""
+        dest_recs = [Obj(__cls__='cst', uid=1000 + i, alias=(d if isinstance(d, str) else d[0]).encode(), type=ord((d if isinstance(d, str) else d[0])[0]),
+                         definition=[m.encode() for m in ([] if isinstance(d, str) else d[1])], convention=[], term=[], text=[]) for i, d in enumerate(dest)]
+        dest_aliases = [bytes(r['alias']).decode() for r in dest_recs]
         used = set(dest_aliases)
+        reserved = set()
         store = {}            # new uid -> record
         next_uid = [100]
         src_recs = {}
@@ -355,6 +359,29 @@ def merge_evaluated(db, rule):
                 used.add(new_alias)
                 next_uid[0] += 1
                 return Obj(uid=next_uid[0], alias=new_alias.encode())
+            if last == 'ReserveAlias' and a():
+                nm = bytes(a()[-1]).decode()
+                if nm not in used:
+                    used.add(nm)
+                    reserved.add(nm)
+                return None
+            if last == 'FreeAlias' and a():
+                nm = bytes(a()[-1]).decode()
+                if nm in reserved:
+                    reserved.discard(nm)
+                    used.discard(nm)
+                return None
+            if last == 'ExtractUGlobals' and n.get('args'):
+                v = ev(n['args'][0])
+                return set(bytes(x) for x in v) if isinstance(v, list) else set()
+            if last == 'FindAlias' and cs.startswith(S) and n.get('args'):
+                o = ev(n['obj']) if 'obj' in n else None
+                nm = bytes(ev(n['args'][-1]))
+                if isinstance(o, Obj) and o.get('which') == 'src':
+                    hit = [u for u, r in src_recs.items() if bytes(r['alias']) == nm]
+                else:
+                    hit = [r['uid'] for r in dest_recs if bytes(r['alias']) == nm] + [u for u, r in store.items() if bytes(r['alias']) == nm]
+                return hit[0] if hit else None
             if last in ('Load', 'Insert') and cs.startswith((S + 'Schema::', S + 'Thesaurus::')):
                 rec = a()[0]
                 cur = store.setdefault(rec['uid'], Obj(__cls__='cst', uid=rec['uid'], alias=rec['alias'], type=rec.get('type'), **{f: list(rec[f]) for f in FIELDS}))
@@ -397,8 +424,17 @@ def merge_evaluated(db, rule):
                 if isinstance(v, Obj) and v.get('__cls__') == 'core':
                     return len(src_recs)
             return NOT_HANDLED
-        this = Obj(__cls__=S + 'rsOperationFacet', core=Obj(__cls__=S + 'RSForm', which='dst', core=Obj(__cls__=S + 'RSCore', which='dst', identifiers=Obj(), schema=Obj(), thesaurus=Obj(), cstList=Obj())))
-        Interp(db, on_call=on_call, max_steps=400000).call(mw, [Obj(__cls__=S + 'RSForm', which='src')], this)
+        this = Obj(__cls__=S + 'rsOperationFacet', core=Obj(__cls__=S + 'RSForm', which='dst', core=Obj(__cls__=S + 'RSCore', which='dst', identifiers=Obj(), schema=Obj(__cls__='schema', which='dst'), thesaurus=Obj(), cstList=Obj())))
+        it_ = Interp(db, on_call=on_call, max_steps=400000)
+
+        def on_range(_it, v):
+            while isinstance(v, tuple) and len(v) == 2 and v[0] == 'ptr':
+                v = v[1]
+            if isinstance(v, Obj) and v.get('__cls__') == 'schema':
+                return list(dest_recs) + list(store.values())
+            return v
+        it_.on_range = on_range
+        it_.call(mw, [Obj(__cls__=S + 'RSForm', which='src')], this)
         # expectations
         if sorted(result_tr) != sorted(src_recs):
             return 'the returned translation covers %s of the constituents %s of the merged schema' % (sorted(result_tr), sorted(src_recs))
@@ -416,6 +452,16 @@ def merge_evaluated(db, rule):
                     return 'merging %s into a schema holding %s: the copy of %s (%s) has the %s mentions %s, every mention renamed once gives %s' % (
                         [(a_, m_) for a_, m_ in src], sorted(dest_aliases), bytes(rec['alias']).decode(), bytes(got['alias']).decode(), f,
                         [bytes(x).decode() for x in got[f]], [w.decode() for w in want])
+        # a mention that denotes no constituent (of its own schema) must not be given one by a generated name
+        src_aliases = {bytes(r['alias']) for r in src_recs.values()}
+        fresh = {bytes(r['alias']) for r in store.values()} - {a_.encode() for a_ in dest_aliases}
+        for who, recs_, own in (('merged', list(src_recs.values()), src_aliases), ('receiving', dest_recs, {a_.encode() for a_ in dest_aliases})):
+            for rec in recs_:
+                for m in rec['definition']:
+                    if bytes(m) not in own and bytes(m) in fresh and not (who == 'merged' and bytes(m).decode() in dest_aliases):
+                        return ('merging %s into a schema holding %s: the definition of %s in the %s schema mentions %s, which denotes no constituent there; a copied constituent is given exactly this name, '
+                                'so the dangling mention silently gets a meaning (an INCORRECT definition becomes VERIFIED, X1\\X2 becomes X2\\X2)' % (
+                                    [(a_, m_) for a_, m_ in src], dest, bytes(rec['alias']).decode(), who, bytes(m).decode()))
         return None
     cases = [
         (['X1'], [('X1', ['X1', 'X2']), ('X2', ['X2'])]),                     # chain X1->X2, X2->X3 and self mentions
@@ -424,6 +470,9 @@ def merge_evaluated(db, rule):
         (['X1', 'X2', 'X3'], [('X1', ['X3']), ('X2', ['X1']), ('X3', ['X2', 'X9'])]),
         (['D1'], [('X1', ['D1']), ('D1', ['X1', 'D1', 'D1'])]),
         (['X1'], [('X1', {'term': ['X1'], 'text': ['X2', 'X1']}), ('X2', {'definition': ['X1'], 'text': ['X2']})]),     # a constituent with an empty formal part still has texts
+        (['X1'], [('X1', {'definition': ['X1', 'X2']})]),                      # X2 is defined nowhere: the copy of X1 must not be called X2
+        ([('X1', []), ('D1', ['X2', 'X2'])], [('X1', ['X1'])]),                # the receiving schema mentions the erased X2
+        ([('X1', []), ('D1', ['X2'])], [('X2', ['X2']), ('X1', ['X2'])]),      # ... and the merged schema has an X2 of its own
     ]
     bad = None
     try:
